@@ -45,14 +45,21 @@ def canon_val(key, v):
         hp = parse_hp(v)
         if hp is not None:
             return hp
+    if isinstance(v, tuple) and len(v) == 1:
+        v = v[0]            # Number=1 vs Number=. declarations of the same field parse as scalar vs 1-tuple
     if isinstance(v, bool):
         return str(v)
     if isinstance(v, int):
         return v
+    def num(x):
+        # an Integer field re-declared as Float (or vice versa) parses as 5 vs 5.0: same value
+        if isinstance(x, float):
+            return str(int(x)) if x == int(x) else repr(x)
+        return str(x)
     if isinstance(v, tuple):
-        return ",".join("." if x is None else (repr(x) if isinstance(x, float) else str(x)) for x in v)
+        return ",".join("." if x is None else num(x) for x in v)
     if isinstance(v, float):
-        return repr(v)
+        return int(v) if v == int(v) else repr(v)
     return str(v)
 
 
@@ -74,7 +81,9 @@ def model_record(rec, samples):
         gt = c.get("GT")
         fields = [[k, canon_val(k, v)] for k, v in c.items() if k != "GT"]
         calls.append({"name": s, "gt": None if gt is None else (None if gt[0] is None else list(gt[0])),
-                      "phased": bool(gt[1]) if gt is not None else False, "fields": fields})
+                      # pysam reports a one-allele GT as phased (vacuously): only a GT with >= 2 alleles can be phased
+                      "phased": bool(gt[1]) and gt[0] is not None and len(gt[0]) > 1 if gt is not None else False,
+                      "fields": fields})
     return {"site": rec["site"], "pos": rec["pos"], "ref": rec["ref"], "alts": list(rec["alts"]),
             "format": list(rec["format"]), "calls": calls}
 
